@@ -309,7 +309,9 @@ def class_matrix(v, n, mclass="projective", off=0):
 
 # ------------------------------------------------------------------------------------------- derived objects
 WARM_ATTRS = ("vertices", "edges", "faces", "area", "centroid", "length", "midpoint", "_line", "_plane", "dual", "is_degenerate", "center", "radius",
-              "components", "volume", "general_point", "base_point", "direction", "basis_matrix", "normalized_array", "isinf", "isreal")
+              "components", "volume", "general_point", "base_point", "direction", "basis_matrix", "normalized_array", "isinf", "isreal",
+              "facets", "_edges", "angles", "inradius", "circumcenter", "foci", "lie_coordinates", "T", "shape", "tensor_shape", "rank", "size",
+              "dim", "free_indices", "dtype")
 
 DERIVATIONS = (None, None, "translation*", "+point", "scaling*")
 
@@ -355,3 +357,24 @@ def derive_moved(build, rows, how, m, warm_point=None, prepare=None):
     if how == "translation*":
         return G.translation(*m) * obj0
     return obj0 + G.Point(*m)
+
+
+def rederive(obj, m, how="translation*"):
+    """The same geometric object, but obtained by derivation: obj is moved away by the integer translation -m (a fresh
+    object), that object is used (warm), and then moved back with translation(m) * x or x + Point(m). For integer m and
+    moderately sized coordinates all three steps are exact up to rounding of the order of 1e-16, so every oracle that holds
+    for obj holds for the result; what the intermediate object memoised must not show in the answers of the result."""
+    d = obj.dim
+    if how == "scaling*":
+        # shrink by 1/2, use, enlarge by 2 (exact in binary floating point): lengths, areas and volumes of the intermediate differ
+        away = G.scaling(*([0.5] * d)) * obj
+        warm(away)
+        return G.scaling(*([2.0] * d)) * away
+    m = [int(x) for x in list(m)[:d]] + [1] * max(0, d - len(m))
+    if not any(m):
+        m[0] = 1
+    away = G.translation(*[-x for x in m]) * obj
+    warm(away)
+    if how == "+point":
+        return away + G.Point(*m)
+    return G.translation(*m) * away
